@@ -442,10 +442,15 @@ func cmdCheck(args []string) int {
 						}
 					} else {
 						// path by path: on one concrete path all state merges collapse
-						j.fr.mu.Lock()
-						paths := j.fr.vc.pathSplits(ob, 400)
-						j.fr.mu.Unlock()
 						decided := false
+						for attempt := 0; attempt < 2 && !decided; attempt++ {
+						j.fr.mu.Lock()
+						if attempt == 1 && !j.fr.vc.hasLateGroups(ob) {
+							j.fr.mu.Unlock()
+							break
+						}
+						paths := j.fr.vc.pathSplits(ob, 400, attempt == 1)
+						j.fr.mu.Unlock()
 						if len(paths) > 0 {
 							// the paths are independent queries: run several at a time
 							type pres struct {
@@ -500,6 +505,7 @@ func cmdCheck(args []string) int {
 								r = SolverResult{Status: "unsat", Solver: fmt.Sprintf("z3-new(path-split x%d)", len(paths)), Time: tsum}
 								decided = true
 							}
+						}
 						}
 						if !decided {
 							var all2 []SolverResult
